@@ -6,7 +6,7 @@ import sys
 import time
 
 VERIF = os.path.dirname(os.path.dirname(os.path.abspath(__file__)))
-EVID = os.path.join(VERIF, "evidence")
+EVID = os.environ.get("BSQ_EVID") or os.path.join(VERIF, "evidence")
 
 
 class Violation:
